@@ -3,6 +3,7 @@
 """
 import copy
 import functools
+import json
 import pickle
 
 from sismic.interpreter import Interpreter
@@ -60,6 +61,7 @@ class Run:
             self.listener2.names = self.ids
             self.interp.attach(self.listener2)
         self.opt = {'ignore': bool(ignore_contract), 'metas': bool(metas)}
+        self.returned = []      # (MacroStep object, what it said when it was returned)
 
     # ---- projection
     def state(self):
@@ -114,7 +116,7 @@ class Run:
              'gv': gv, 'cfail': h.get('cfail', 0), 'mfail': h.get('mfail', 0),
              'clk': it.clock.time, 'pre': self.state(), 'some': False, 'rtime': 0, 'steps': [],
              'exc': '', 'eobj': 0, 'eidx': 0, 'log': [], 'chk': 1,
-             'ign': self.opt['ignore'], 'hasl2': self.listener2 is not None, 'l2': [], 'mt': [],
+             'ign': self.opt['ignore'], 'stale': 0, 'hasl2': self.listener2 is not None, 'l2': [], 'mt': [],
              'ref': dict(NOREF)}
         if self.broken:
             o['exc'] = self.broken
@@ -142,6 +144,9 @@ class Run:
                     o['some'] = True
                     o['steps'] = self.flat_step(ms)
                     o['rtime'] = ms.time
+                    self.returned.append((ms, json.dumps(o['steps'])))
+                    if len(self.returned) > 6:
+                        self.returned.pop(0)
             else:
                 raise ValueError(op)
         except sx.ContractError as e:
@@ -157,6 +162,9 @@ class Run:
         except Exception as e:  # anything else is reported with its class name
             o['exc'] = type(e).__name__
         o['post'] = self.state()
+        # the macro steps handed out earlier must still say the same thing
+        o['stale'] = sum(1 for (m, was) in self.returned[:-1 if o['some'] else None]
+                         if json.dumps(self.flat_step(m)) != was)
         if not o['some']:
             o['rtime'] = o['post']['time']
         o['log'] = list(self.probes.log)
